@@ -652,11 +652,12 @@ def run(repo: Repo) -> Result:
         raise AnchorMissing(f"only {n_cyc} call-graph cycles found")
     # render walk: calls that leave the current tree must be depth guarded
     n_dyn = 0
-    for f in funcs:
-        if f.name not in ("render_to_output", "render_to_output_async", "__getitem__") or f.cls is None:
+    for f0 in funcs:
+        if f0.name not in ("render_to_output", "render_to_output_async", "__getitem__") or f0.cls is None:
             continue
-        if f.name == "__getitem__" and f.cls.name != "BlockDrop":
+        if f0.name == "__getitem__" and f0.cls.name != "BlockDrop":
             continue
+        f = _nfunc(repo, f0, aliases=False)  # private helpers of the node class inlined
         assigns = {}
         for st in walk_no_nested(f.node):
             if isinstance(st, ast.Assign) and isinstance(st.targets[0], ast.Name):
@@ -693,6 +694,8 @@ def run(repo: Repo) -> Result:
             ok = False
             if isinstance(ctx, ast.Name) and ctx.id in assigns and all(isinstance(v, ast.Call) and callee_name(v) == "copy" for v in assigns[ctx.id]):
                 ok = True
+            if isinstance(unwrap_await(ctx), ast.Call) and callee_name(unwrap_await(ctx)) == "copy":
+                ok = True  # rendered directly on `context.copy(...)`
             cur = c
             while id(cur) in pm and not ok:
                 cur = pm[id(cur)]
